@@ -36,7 +36,8 @@ pub struct CertSpec {
     pub eku: Option<Vec<u8>>,
     pub skid: Option<Vec<u8>>,
     pub akid: Option<Vec<u8>>,
-    pub future: Option<Vec<u8>>,
+    /// one `future-extensions` element per entry (each a DER blob of one or more X.509 extensions)
+    pub future: Vec<Vec<u8>>,
 }
 
 pub struct KeyPair {
@@ -111,7 +112,7 @@ pub fn encode_tbs(spec: &CertSpec) -> Result<Vec<u8>, Error> {
     if let Some(k) = &spec.akid {
         tw.str(&TLVTag::Context(5), k)?;
     }
-    if let Some(f) = &spec.future {
+    for f in &spec.future {
         tw.str(&TLVTag::Context(6), f)?;
     }
     tw.end_container()?;
@@ -160,7 +161,7 @@ pub fn rcac_spec(kp: &KeyPair, ca_id: u64, fabric_id: Option<u64>) -> CertSpec {
         eku: None,
         skid: Some(kp.key_id.clone()),
         akid: Some(kp.key_id.clone()),
-        future: None,
+        future: Vec::new(),
     }
 }
 
@@ -181,7 +182,7 @@ pub fn icac_spec(kp: &KeyPair, parent: &CertSpec, parent_kp: &KeyPair, ca_id: u6
         eku: None,
         skid: Some(kp.key_id.clone()),
         akid: Some(parent_kp.key_id.clone()),
-        future: None,
+        future: Vec::new(),
     }
 }
 
@@ -202,6 +203,6 @@ pub fn noc_spec(kp: &KeyPair, parent: &CertSpec, parent_kp: &KeyPair, node_id: u
         eku: Some(vec![1, 2]),
         skid: Some(kp.key_id.clone()),
         akid: Some(parent_kp.key_id.clone()),
-        future: None,
+        future: Vec::new(),
     }
 }
